@@ -403,7 +403,9 @@ func c14GenBanner(seed int64, idx int) *c14BannerCase {
 		c.Extra = append(c.Extra, [2]string{"X-Custom", "one"}, [2]string{"x-custom", "two, three"})
 	}
 	if rng.Intn(3) == 0 {
-		c.Extra = append(c.Extra, [2]string{"Cache-Control", "public, max-age=3600"})
+		// backend cache policies, including ones that merely mention no-cache/no-store (qualified directive, extension token)
+		c.Extra = append(c.Extra, [2]string{"Cache-Control", []string{"public, max-age=3600", "public, max-age=3600", `no-cache="Set-Cookie", max-age=86400`,
+			`public, max-age=31536000, no-cache="set-cookie"`, "private, x-no-store-hint=1, max-age=600", "no-store", "no-cache", "max-age=0, must-revalidate"}[rng.Intn(8)]})
 	}
 	if rng.Intn(3) == 0 {
 		c.Extra = append(c.Extra, [2]string{"X-Frame-Options", "DENY"})
@@ -790,8 +792,17 @@ func c14FrameCheck(c *c14BannerCase, wantURLs []string, o *c14Obs) (problem stri
 	if !found {
 		return "frame-missing-url", nil
 	}
-	cc := strings.ToLower(strings.Join(o.Header["cache-control"], ","))
-	if !strings.Contains(cc, "no-store") && !strings.Contains(cc, "no-cache") {
+	// "marked uncacheable": an unqualified no-store or no-cache directive (RFC 9111: no-cache="field" still allows the
+	// response to be stored and reused; a token that merely contains the word does not count)
+	uncacheable := false
+	for _, v := range o.Header["cache-control"] {
+		for _, d := range c14SplitDirectives(v) {
+			if d == "no-store" || d == "no-cache" {
+				uncacheable = true
+			}
+		}
+	}
+	if !uncacheable {
 		return "frame-cacheable", nil
 	}
 	xfo := o.Header["x-frame-options"]
@@ -1440,4 +1451,27 @@ func c14Main(specJSON []byte) {
 		}
 	}
 	Emit(map[string]interface{}{"done": spec.Shard})
+}
+
+// c14SplitDirectives splits a Cache-Control value at top-level commas (quoted
+// strings may contain commas) and returns the lower-cased, trimmed directives.
+func c14SplitDirectives(v string) []string {
+	var out []string
+	cur := strings.Builder{}
+	inq := false
+	for i := 0; i < len(v); i++ {
+		ch := v[i]
+		switch {
+		case ch == '"':
+			inq = !inq
+			cur.WriteByte(ch)
+		case ch == ',' && !inq:
+			out = append(out, strings.ToLower(strings.TrimSpace(cur.String())))
+			cur.Reset()
+		default:
+			cur.WriteByte(ch)
+		}
+	}
+	out = append(out, strings.ToLower(strings.TrimSpace(cur.String())))
+	return out
 }
